@@ -516,11 +516,19 @@ func run(c *harness.Case) {
 	w.start(true)
 
 	steps := 40 + r.Intn(c.Pick(30, 60))
+	lazy := r.Intn(3) == 0
 	for i := 0; i < steps && !c.Failed(); i++ {
 		switch x := r.Intn(100); {
 		case x < 34:
 			w.userStep()
 		case x < 48:
+			if lazy && r.Intn(3) != 0 {
+				// a slow syncer: most delivery slots pass without one; a watch failure re-lists instead
+				if r.Intn(4) == 0 {
+					w.resyncSyncer()
+				}
+				continue
+			}
 			w.deliverSyncer(1 + r.Intn(6))
 		case x < 58:
 			w.deliverPods(1 + r.Intn(4))
